@@ -157,6 +157,12 @@ class FuncInfo:
                     self.sites.append(RSite(f, n, "ValueError", "index"))
                 elif isinstance(n.func, ast.Attribute) and n.func.attr == "format" and s is not None and not s.callees:
                     recv = n.func.value
+                    if isinstance(recv, ast.Name):
+                        # a module-level name bound once to a string literal is that literal
+                        from .guards import module_str_consts
+                        cs = module_str_consts(f)
+                        if recv.id in cs:
+                            recv = ast.Constant(value=cs[recv.id])
                     if isinstance(recv, ast.Constant) and isinstance(recv.value, str):
                         # constant template: placeholders must be served by the arguments
                         import string
